@@ -160,7 +160,7 @@ func (w *c11World) ics(r *Rec, f []string) string {
 		if okB {
 			out = "ok"
 			if w.govOff[p.addr] {
-				r.Find(Finding{Sig: "C11:converted-on-disabled-pair:ics", What: "the ICS-20 hook converted for a pair whose last committed relay toggle was OFF (the oracle's own record)", Ops: hist(), Obs: "converted", Req: "vouchers kept"})
+				r.Find(Finding{Sig: "C11:conversion-accepted-on-disabled-pair:after-" + w.lastOffOp(p.addr), What: "the ICS-20 hook converted for a pair whose last committed relay toggle was OFF (the oracle's own record)", Ops: hist(), Obs: "converted", Req: "vouchers kept"})
 			}
 			if w.govModuleOff {
 				r.Find(Finding{Sig: "C11:converted-while-module-disabled:ics", What: "the ICS-20 hook converted although the last committed EnableAggregate change was OFF", Ops: hist(), Obs: "converted", Req: "vouchers kept"})
@@ -177,6 +177,11 @@ func (w *c11World) ics(r *Rec, f []string) string {
 		}
 	}
 	r.Count("ics." + out)
+	if p.found && w.govOff[p.addr] && (out == "ok" || out == "kept") {
+		for _, o := range w.distinctOffOps(p.addr) {
+			r.Count("disabled-op." + o + ".ics." + map[bool]string{true: "ACCEPTED", false: "refused"}[out == "ok"])
+		}
+	}
 	if w.offByKey && p.found && !w.govOff[p.addr] && out == "kept" {
 		r.Count("convert.refused.module-disabled-by-key")
 		r.Count("convert.refused.module-disabled-by-key.ics")
